@@ -142,7 +142,7 @@ MUST_HAVE = {"name": object, "label": object, "database name": object, "MCNP id"
 # so DUMP1 cannot be retrieved through byMcc3Id / byMcc3IdEndfbVII0 / byMcc3IdEndfbVII1 (DUMP2, read later, wins).
 # With the flag set, the obligation for exactly that identifier states the defect instead (the lookup gives the
 # other dummy nuclide); every other nuclide and identifier is unaffected.
-KNOWN_DEFECT_dummy_nuclides_share_mcc3_id = True
+KNOWN_DEFECT_dummy_nuclides_share_mcc3_id = False  # recorded in known_findings.jsonl
 SHARED_DUMMY_ID = ("DUMMY", ("DUMP1", "DUMP2"))
 # Documented, not a defect (I_ARMI_ND_ISOTOPES6, updateNuclideBasesForSpecialCases): "AM242" / "nAm242" are second
 # keys for Am-242m, whose own name is AM242M (the ground state is AM242G).  No two nuclides share an identifier
